@@ -61,6 +61,21 @@ def check(run):
         run.functions.add(key[0])
     if len(esc.visited) < 14:
         raise AnalysisError("raise/catch analysis visited only %d summaries below serviceAllRx (floor 14)" % len(esc.visited))
+    # a local that some path leaves unassigned before it is read raises UnboundLocalError (a NameError: not among the dropped kinds)
+    from ..names import definite_unbound_locals
+    nub = 0
+    for key in sorted(esc.visited):
+        g = ix.functions.get(key[0])
+        if g is None or g.module.name != MM:
+            continue
+        nub += 1
+        hits = definite_unbound_locals(run, g, may=True)
+        if not hits:
+            run.ob("C22.R1", "%s:locals-assigned-on-every-path" % g.fq, True, run.site(g))
+        for name, node in hits[:2]:
+            run.ob("C22.R1", "%s:maybe-unbound:%s" % (g.fq, name), False, run.site(g, node),
+                   "local `%s` is read on a path that never assigned it (UnboundLocalError is not a kind the receive side drops): "
+                   "a datagram that steers the parser down that path makes serviceAllRx raise" % name)
     # fuse indexes only checked gram numbers
     fuse = ix.func(MM, "Memoer.fuse")
     idx = [n for n in walk_local(fuse.node) if isinstance(n, ast.Subscript) and dotted(n.value) == "grams" and isinstance(n.ctx, ast.Load)]
@@ -70,7 +85,7 @@ def check(run):
     run.ob("C22.R1", "%s:indexes-only-present-gram-numbers" % fuse.fq, bool(idx) and guard, run.site(fuse),
            "" if idx and guard else "fuse() indexes grams[i] for i < cnt without checking that each number is present: a gram number beyond the "
            "count makes len(grams) reach cnt and grams[i] raises KeyError")
-    run.floor("C22.R1", 3)
+    run.floor("C22.R1", 12)
 
     # R2 authentication gate
     pick = ix.func(MM, "Memoer.pick")
@@ -131,6 +146,7 @@ MUTANTS = [
     Mutant("reintroduce-narrow-handler", MM, "Memoer._serviceOneReceived", "except (hioing.MemoerError, KeyError, ValueError) as ex: # invalid gram so drop", "except hioing.MemoerError as ex: # invalid gram so drop", {"C22.R1"}, canary=True),
     Mutant("reintroduce-fuse-unchecked-index", MM, "Memoer.fuse", "        if len(grams) < cnt or any(i not in grams for i in range(cnt)):", "        if len(grams) < cnt:", {"C22.R1"}),
     Mutant("reintroduce-fuse-decode-escapes", MM, "Memoer._serviceOnceRxGrams", "            except ValueError as ex:  # memo body not valid utf-8 so drop memo", "            except KeyError as ex:", {"C22.R1"}),
+    Mutant("reintroduce-ack-gc-unbound", MM, "Memoer.pick", "                gc = None  # not provided in ack gram\n", "                pass\n", {"C22.R1"}),
     Mutant("auth-code-no-signature", MM, "Memoer", "'bAAC': Sizage(bz=4, nz=4, mz=24,vz=44, az=88)", "'bAAC': Sizage(bz=4, nz=4, mz=24,vz=44, az=0)", {"C22.R2"}),
     Mutant("silent-nested-authic", MM, "Memoer.pick", "            if self.authic and code not in self.Audex:  # must be signed\n                raise hioing.MemoerError(f\"Unsigned gram {code =} when signed \"\n                                         f\"required.\")\n            bz, nz, mz, vz, az = self.Sizes[code]  # bz nz mz vz az\n            oz =  bz + nz + mz  + vz + az",
            "            if self.authic and (code not in self.Audex):  # must be signed\n                raise hioing.MemoerError(f\"Unsigned gram {code =} when signed \"\n                                         f\"required.\")\n            bz, nz, mz, vz, az = self.Sizes[code]  # bz nz mz vz az\n            oz =  bz + nz + mz  + vz + az", silent=True),
